@@ -159,3 +159,14 @@ def require_coverage(res, actions, what=''):
   missing = [a for a in actions if res.coverage.get(a, (0, 0))[1] == 0]
   if missing:
     raise MachineryError(f'vacuity: actions never taken {missing} {what}')
+
+
+def parse_rejects(res, label=''):
+  """For batched trace validation (TraceLib.AllAccepted): returns {trace index (1-based): furthest event reached}."""
+  from harness import tlaval
+  if res.ok:
+    return {}
+  m = re.search(r'<<\s*"REJECT",\s*(\{.*?\})\s*>>', res.stdout, re.S)
+  if not m:
+    raise MachineryError(f'trace validation failed without a REJECT line ({label}):\n' + res.stdout[-3000:])
+  return {int(a): int(b) for a, b in tlaval.parse_value(m.group(1))}
